@@ -372,7 +372,7 @@ func dropUnusedImports(f *ast.File) {
 				continue
 			}
 			// only drop imports we may have orphaned
-			if p == "io" || p == "context" || p == vsyncPath || p == "sync" {
+			if p == "io" || p == "context" || p == "time" || p == vsyncPath || p == "sync" {
 				continue
 			}
 			keep = append(keep, sp)
@@ -880,8 +880,14 @@ func (rw *rewriter) expr(e ast.Expr) ast.Expr {
 					return rw.vs(v.Sel.Name)
 				}
 			case "context":
-				if v.Sel.Name == "WithCancel" {
-					return rw.vs("WithCancel")
+				switch v.Sel.Name {
+				case "WithCancel", "WithTimeout", "WithDeadline":
+					return rw.vs(v.Sel.Name)
+				}
+			case "time":
+				switch v.Sel.Name {
+				case "After", "Tick", "Sleep", "NewTimer", "AfterFunc", "Timer":
+					return rw.vs(v.Sel.Name)
 				}
 			}
 			return v
